@@ -42,7 +42,13 @@ const Statement * DOStatement::doit(Context& ctx) const
 void DOStatement::unparse(Context& ctx, FILE * out) const
 {
   if (_exp != nullptr)
+  {
+    /* without the keyword an expression that does not begin with a name is
+     * not a statement */
+    fputs(Statement::KEYWORDS[keyword()], out);
+    fputc(' ', out);
     fputs(_exp->unparse(ctx).c_str(), out);
+  }
 }
 
 DOStatement * DOStatement::parse(Parser& p, Context& ctx)
